@@ -1,10 +1,10 @@
 SPECIFICATION Spec
 CONSTANTS
   Emit = TRUE
-  Lits = {"color", "COLOR", "c~olor", "left", "lef~t", "top"}
+  Lits = {"color", "COLOR", "c~olor", "left", "lef~t"}
   Values = {"red", "blue", "1px"}
   Prios = {"", "!important", "!IMPORTANT"}
-  MaxLen = 4
+  MaxLen = 3
   MaxHist = 6
 CONSTRAINT Bounded
 VIEW View
